@@ -270,11 +270,11 @@ func heimdallEpisode(t *testing.T, r *kit.Run, rng *rand.Rand, maxN, steps int) 
 			"powers_in_index_order": c.powers, "slots": fmt.Sprintf("%+v", slots), "distinct_honest_signer_power": c.validPower, "total_power": c.total,
 			"call_ok": rec.Ok, "call_err": rec.Err, "header_amino_hex": kit.Hex(c.raw)}
 		if after == nil {
-			r.Violation("heimdall:tracked-record-vanished", "record unreadable", replay)
+			viol(r, "heimdall:tracked-record-vanished", "record unreadable", replay)
 			return
 		}
 		if after.H < before.H {
-			r.Violation("heimdall:tracked-height-decreased", fmt.Sprintf("%v -> %v", before, after), replay)
+			viol(r, "heimdall:tracked-height-decreased", fmt.Sprintf("%v -> %v", before, after), replay)
 			return
 		}
 		if same(before, after) {
@@ -305,7 +305,7 @@ func heimdallEpisode(t *testing.T, r *kit.Run, rng *rand.Rand, maxN, steps int) 
 		case 3*c.validPower <= 2*c.total:
 			key = "heimdall:advance-without-two-thirds"
 		}
-		r.Violation(key, fmt.Sprintf("syncBlockHeader(%s): tracked %v -> %v although only %d of %d power honestly signed (each validator counted once)", op, before, after, c.validPower, c.total), replay)
+		viol(r, key, fmt.Sprintf("syncBlockHeader(%s): tracked %v -> %v although only %d of %d power honestly signed (each validator counted once)", op, before, after, c.validPower, c.total), replay)
 		return
 	}
 }
